@@ -441,7 +441,23 @@ def r9(ctx):
         i.key = i.key.replace("C02|C02.R4", "C05|C05.R9")
 
 
-RULES = [r1, r2, r3, r4, r5, r6, r7, r8, r9]
+def r10(ctx):
+    """no node that is not the prescribed value enters the stored tree through a proof without upgrade: verify_proof compares the HASH of the recomputed root with the hash of the node the core holds (Node's Ord / Eq by index would always agree) — the comparison clauses of C04.R3"""
+    from . import c04
+    before = len(ctx.insts)
+    c04.r3(ctx)
+    kept = []
+    for i in ctx.insts[before:]:
+        if "hash" in i.anchor or "compared" in i.anchor or "verify_proof" in i.anchor:
+            i.prop, i.rule = P, "C05.R10"
+            i.key = i.key.replace("C04|C04.R3", "C05|C05.R10")
+            kept.append(i)
+    ctx.insts[before:] = kept
+    if not kept:
+        ctx.missing(P, "C05.R10", "shared clauses of c04.r3", "no instance")
+
+
+RULES = [r1, r2, r3, r4, r5, r6, r7, r8, r9, r10]
 EXPLANATION = ("C05 (tree, root hash and signature match the v10 scheme): decides the hash pre-image layouts from the ordered Digest::update calls and the immediately-called encoding closures — "
                "leaf [0][u64le len][data], parent [1][u64le sum][lower-index child hash][other hash], tree [2] then per root [hash][u64le index][u64le length] (R1); the type bytes and the 32-byte tree "
                "namespace (R2); signable = [TREE][hash:32][u64le length][u64le fork] (R3); big-endian helper confined to unused legacy functions and every node producer hashing through Hash::data / "
